@@ -195,7 +195,9 @@ def extra_axes(name, quick=True):
             ax.append({"block_size": 8, "parallelism": 2})
         return ax
     if name == "scram":
-        return [{"algs": "sha-1"}, {"algs": "sha-1,sha-256"}, {"algs": "sha-1,sha-256,sha-512"}, {"algs": "md5,sha-1"}]
+        # (md4: hashlib lacks it under OpenSSL 3, the library then keys its own MD4 class through its own HMAC / PBKDF2)
+        return [{"algs": "sha-1"}, {"algs": "sha-1,sha-256"}, {"algs": "sha-1,sha-256,sha-512"}, {"algs": "md5,sha-1"},
+                {"algs": "md4,sha-1"}, {"algs": "sha-1,sha-224,sha-384"}]
     if name == "unix_disabled":
         return [{}, {"marker": "*"}, {"marker": "!"}, {"marker": "*LK*"}]
     if name == "cisco_type7":
